@@ -97,7 +97,8 @@ def gen_options(rng, level, for_plain_fn):
         exp["ss"] = v
     if rng.random() < 0.35:
         form = rng.randrange(8)
-        text, val = [("threads", [0]), ("threads = true", [0]), ("threads = false", [1]), ("threads = 4", [4]), ("threads = 0", [0]),
+        sc = rng.choice([1, 2, 3, 4, 5, 6, 7, 8, 12])
+        text, val = [("threads", [0]), ("threads = true", [0]), ("threads = false", [1]), ("threads = %d" % sc, [sc]), ("threads = 0", [0]),
                      ("threads = [1, 2, 2]", [1, 2, 2]), ("threads = 0..=3", [0, 1, 2, 3]), ("threads = crate::THREADS_C", [0, 1, 4])][form]
         parts.append(text)
         exp["th"] = val
